@@ -754,11 +754,11 @@ theorem rkeep_runTasks (S : Strs) (cfg : Cfg) (s : State) : RKeep s (runTasks S 
       | close b => exact rkeep_backendClose S s0 b
   exact RKeep.trans (this s.tasks s) (rkeep_of_eq _ _ rfl rfl)
 
-theorem rkeep_expire (S : Strs) (s : State) : RKeep s (expire S s) := by
+theorem rkeep_expire (S : Strs) (s : State) (n : Nat) : RKeep s (expire S s n) := by
   unfold expire
   dsimp only
-  refine RKeep.trans (b := List.foldl _ s s.timeouts) ?_ (rkeep_of_eq _ _ rfl rfl)
-  generalize s.timeouts = ts
+  refine RKeep.trans (b := List.foldl _ s ((liveDeadlines s).take n)) ?_ (rkeep_of_eq _ _ rfl rfl)
+  generalize (liveDeadlines s).take n = ts
   induction ts generalizing s with
   | nil => exact RKeep.refl s
   | cons f fs ih =>
@@ -796,7 +796,7 @@ theorem rinv_step (T : Tables) (S : Strs) (cfg : Cfg) (slotFn : Bytes → Nat) (
     | runTasks => exact rinv_keep S _ _ (rkeep_runTasks S cfg s) h
     | backendBytes b chunk => exact rinv_backendBytes T S cfg slotFn s b chunk h
     | backendClose b => exact rinv_keep S _ _ (rkeep_backendClose S s b) h
-    | expire => exact rinv_keep S _ _ (rkeep_expire S s) h
+    | expire n => exact rinv_keep S _ _ (rkeep_expire S s n) h
     | poolRemove p => exact rinv_keep S _ _ (rkeep_of_eq _ _ (same_poolRemove s p).2 (bsame_poolRemove s p)) h
 
 theorem rinv_run (T : Tables) (S : Strs) (cfg : Cfg) (slotFn : Bytes → Nat) (es : List Event) (s : State) (h : RInv S s) :
